@@ -60,6 +60,85 @@ def gen_vcpu(rng, iobuf_addr, malformed=None):
     return v
 
 
+def make_probes(rng, picks, malformed=None, avoid=None):
+    """Per-core probes for the (chip, core) pairs `picks`; `avoid` = {chip: vcpu_base values not to be used again}."""
+    probes, used = [], {}
+    for xy, p in picks:
+        if xy not in used:
+            base = rng.choice([0xe5007000, 0x60000000 + 4 * rng.getrandbits(16)])
+            while avoid and base in avoid.get(xy, ()):
+                base = 0x60000000 + 4 * rng.getrandbits(16)
+            used[xy] = dict(vcpu_base=base, iobuf_size=rng.choice([16, 40, 64, 100, 256]),
+                            next_addr=[0x60100000 + 4 * rng.getrandbits(10)],
+                            router=[rng.choice([0, 1, 0xffffffff, rng.getrandbits(32)]) for _ in range(16)])
+        ctx = used[xy]
+        size = ctx["iobuf_size"]
+        blocks = []
+        text_only = rng.random() < 0.7
+        for _b in range(rng.choice([0, 1, 1, 2, 3, 5])):
+            addr = ctx["next_addr"][0]
+            ctx["next_addr"][0] += size + 16 + 4 * rng.randint(0, 8)
+            length = rng.choice([0, 1, size, size, max(0, size - 1), rng.randint(0, size)])
+            if malformed == "iobuf_overlong" and rng.random() < 0.6:
+                length = size + rng.choice([1, 5, 1000])
+            if text_only:
+                payload = [rng.choice(b"abc xyz\n0123456789:=%") for _ in range(size)]
+            else:
+                payload = [rng.getrandbits(8) for _ in range(size)]
+            blocks.append(dict(addr=addr, time=rng.getrandbits(32), ms=rng.getrandbits(32), length=length,
+                               payload=payload))
+        probes.append(dict(chip=list(xy), p=p, vcpu_base=ctx["vcpu_base"], iobuf_size=size,
+                           vcpu=gen_vcpu(rng, blocks[0]["addr"] if blocks else 0,
+                                         malformed if malformed in ("appname_nul", "bad_cpu_state", "bad_rt_code") else None),
+                           iobuf=blocks, router=ctx["router"]))
+    return probes
+
+
+def gen_history(rng, idx, tier):
+    """ONE controller, the same chips, two or three successive machine states (a reboot between them): the later
+    states differ in sv->vcpu_base, iobuf_size, the vcpu blocks / IOBUF chains / router counters of the probed cores,
+    core counts, core states, link patterns, free memory, which chips answer.  The dimensions, the P2P table, the boot
+    chip and the sver reply (hence the SCP buffer size the controller has learnt) stay."""
+    import copy
+    first = None
+    for _ in range(50):
+        first = gen_case(rng, 8 * idx, tier)                    # 8 * idx: never a malformed machine or a sliver
+        if first["probes"] and first["dims"][0] * first["dims"][1] <= 64 and not first["sliver"]:
+            break
+    stages = [first]
+    picks = []
+    for pr in first["probes"]:
+        picks.append((tuple(pr["chip"]), pr["p"]))
+    used_bases = {}
+    for pr in first["probes"]:
+        used_bases.setdefault(tuple(pr["chip"]), set()).add(pr["vcpu_base"])
+    for k in range(rng.choice([1, 1, 2])):
+        st = copy.deepcopy(stages[-1])
+        probed = set(xy for xy, _ in picks)
+        asked = probed | set((q[0], q[1]) for q in st["sver_queries"])       # chips addressed directly must answer
+        for x, y, c in st["chips"]:
+            if rng.random() < 0.5:
+                new = simple_chip(rng, nc=rng.choice([18, 17, rng.randint(0, 18)]))
+                new["answer"] = c["answer"]
+                c.clear()
+                c.update(new)
+            if (x, y) in asked or [x, y] == st["boot"]:
+                c["answer"] = "ok"
+            elif rng.random() < 0.15:
+                c["answer"] = rng.choice(["ok", "silent", ["rc", 0x8b]])
+        extra = []
+        if rng.random() < 0.3:
+            extra = [(rng.choice(sorted(probed)), rng.randrange(18))]
+        newpicks = picks + [e for e in extra if e not in picks]
+        st["probes"] = make_probes(rng, newpicks, None, used_bases)
+        for pr in st["probes"]:
+            used_bases.setdefault(tuple(pr["chip"]), set()).add(pr["vcpu_base"])
+        st["also_get_machine"] = rng.random() < 0.3
+        stages.append(st)
+    return dict(kind="history", stages=stages, dims=first["dims"], chips=first["chips"], sver=first["sver"],
+                probes=first["probes"], sliver=False)
+
+
 def gen_case(rng, idx, tier):
     malformed = None
     if idx % 8 == 7:
@@ -212,37 +291,12 @@ def gen_case(rng, idx, tier):
     answering = [(x, y) for x, y, c in chips if c["answer"] == "ok" and (x, y) in routed]
     probes = []
     if answering and malformed not in ("noroute", "dims0"):
-        used = {}
+        picks = []
         for _ in range(rng.choice([1, 1, 2, 3])):
-            xy = rng.choice(answering)
-            p = rng.randrange(0, 18)
-            if xy in used and p in used[xy]["ps"]:
-                continue
-            ctx = used.setdefault(xy, dict(vcpu_base=rng.choice([0xe5007000, 0x60000000 + 4 * rng.getrandbits(16)]),
-                                           iobuf_size=rng.choice([16, 40, 64, 100, 256]), ps=set(),
-                                           next_addr=[0x60100000 + 4 * rng.getrandbits(10)],
-                                           router=[rng.choice([0, 1, 0xffffffff, rng.getrandbits(32)])
-                                                   for _ in range(16)]))
-            ctx["ps"].add(p)
-            size = ctx["iobuf_size"]
-            blocks = []
-            text_only = rng.random() < 0.7
-            for _b in range(rng.choice([0, 1, 1, 2, 3, 5])):
-                addr = ctx["next_addr"][0]
-                ctx["next_addr"][0] += size + 16 + 4 * rng.randint(0, 8)
-                length = rng.choice([0, 1, size, size, max(0, size - 1), rng.randint(0, size)])
-                if malformed == "iobuf_overlong" and rng.random() < 0.6:
-                    length = size + rng.choice([1, 5, 1000])
-                if text_only:
-                    payload = [rng.choice(b"abc xyz\n0123456789:=%") for _ in range(size)]
-                else:
-                    payload = [rng.getrandbits(8) for _ in range(size)]
-                blocks.append(dict(addr=addr, time=rng.getrandbits(32), ms=rng.getrandbits(32), length=length,
-                                   payload=payload))
-            probes.append(dict(chip=list(xy), p=p, vcpu_base=ctx["vcpu_base"], iobuf_size=size,
-                               vcpu=gen_vcpu(rng, blocks[0]["addr"] if blocks else 0,
-                                             malformed if malformed in ("appname_nul", "bad_cpu_state", "bad_rt_code") else None),
-                               iobuf=blocks, router=ctx["router"]))
+            pick = (rng.choice(answering), rng.randrange(0, 18))
+            if pick not in picks:
+                picks.append(pick)
+        probes = make_probes(rng, picks, malformed)
     sq = [[255, 255, 0]]
     if answering:
         xy = rng.choice(answering)
@@ -749,6 +803,8 @@ def process_batch(chk, sim, cases, state, built):
     outs = [o for part in chk.impl_parallel("impl_c14.py", chunks, timeout=3000) for o in part]
     keep = [i for i, o in enumerate(outs) if o != ["skipped"]]
     cases, outs = [cases[i] for i in keep], [outs[i] for i in keep]
+    # units: one machine state with what was observed on it; a history contributes one unit per state
+    units = []            # (parent case, state, observation, position of the state in its history)
     for c, o in zip(cases, outs):
         chk.count("kind:" + c["kind"])
         chk.count("size:%s" % ("sliver" if c.get("sliver") else "%dx%d" % (min(c["dims"][0], 12) // 4 * 4, min(c["dims"][1], 12) // 4 * 4)))
@@ -756,24 +812,39 @@ def process_batch(chk, sim, cases, state, built):
         chk.count("iobuf-blocks:%d" % max([len(p["iobuf"]) for p in c["probes"]] + [0]))
         for x, y, cs in c["chips"]:
             chk.count("answer:" + (cs["answer"] if isinstance(cs["answer"], str) else cs["answer"][0]))
+        if "stages" in c:
+            chk.count("history-states:%d" % len(c["stages"]))
+            if isinstance(o, dict):
+                for k, (st, so) in enumerate(zip(c["stages"], o["stages"])):
+                    units.append((c, st, so, k))
+            else:
+                units.append((c, c["stages"][0], o, 0))
+            chk.note_case(c, isinstance(o, dict) and all(nontrivial(st, so) for st, so in zip(c["stages"], o["stages"])))
+        else:
+            units.append((c, c, o, 0))
+            chk.note_case(c, nontrivial(c, o))
+    for parent, c, o, k in units:
         if isinstance(o, dict):
             chk.count("outcome:" + o["sysinfo"][0])
             if isinstance(o.get("constraints"), list) and o["constraints"] and o["constraints"][0] != "err":
-                chk.count("cases-with-global-reservation", 1 if any(k[2] is None for k in o["constraints"]) else 0)
-                chk.count("cases-with-chip-reservation", 1 if any(k[2] is not None for k in o["constraints"]) else 0)
-        chk.note_case(c, nontrivial(c, o))
+                chk.count("cases-with-global-reservation", 1 if any(q[2] is None for q in o["constraints"]) else 0)
+                chk.count("cases-with-chip-reservation", 1 if any(q[2] is not None for q in o["constraints"]) else 0)
         for key, why in oracle(c, o):
+            if k:
+                key += ":after-state-change"
+                why = "same controller, machine state %d of its history: %s" % (k + 1, why)
             if key not in state["seen_keys"] or len(chk.failing) < 5:
-                chk.fail_input("probe:" + key, why, dict(case=c, observed=o if len(json.dumps(o)) < 20000 else "(large)"))
+                chk.fail_input("probe:" + key, why, dict(case=parent, state=k,
+                                                         observed=o if len(json.dumps(o)) < 20000 else "(large)"))
             state["seen_keys"].add(key)
     if cases and state["sample"] is None:
         k = min(range(len(cases)), key=lambda i: abs(len(cases[i]["chips"]) - 6) + (0 if cases[i]["kind"] == "valid" else 100))
         state["sample"] = dict(case=cases[k], implementation=outs[k])
-    # model
+    # model: stateless, i.e. what a fresh controller must report on each state
     if chk.model_ok and built and not state["model_error"]:
         try:
-            idx = [i for i, o in enumerate(outs) if isinstance(o, dict)]
-            named = [case_exprs(cases[i], outs[i], sim, "c%d" % i) for i in idx]
+            idx = [i for i, u in enumerate(units) if isinstance(u[2], dict)]
+            named = [case_exprs(units[i][1], units[i][2], sim, "c%d" % i) for i in idx]
             order = sorted(range(len(named)), key=lambda k: -len(named[k][1]))       # big cases first, spread over shards
             nshard = max(1, min(24, len(named) // 4))
             buckets = [[] for _ in range(nshard)]
@@ -791,9 +862,10 @@ def process_batch(chk, sim, cases, state, built):
                 if wrong:
                     state["nbad"] += 1
                     if state["nbad"] <= 3:
-                        chk.disagree("model and implementation differ on %s (machine %r, kind %s)"
-                                     % (", ".join(wrong[:6]), cases[i]["dims"], cases[i]["kind"]),
-                                     dict(case=cases[i], observed=outs[i] if len(json.dumps(outs[i])) < 20000 else "(large)"))
+                        parent, c, o, k = units[i]
+                        chk.disagree("model and implementation differ on %s (machine %r, kind %s, state %d of its history)"
+                                     % (", ".join(wrong[:6]), c["dims"], parent["kind"], k + 1),
+                                     dict(case=parent, state=k, observed=o if len(json.dumps(o)) < 20000 else "(large)"))
         except RuntimeError as e:
             state["model_error"] = str(e)
 
@@ -814,6 +886,8 @@ def run(chk, args):
                         "a memory read returns the requested bytes (packetisation of reads is property C07); retransmission is C06: "
                         "a chip `responds` iff it answers within the controller's n_tries = 5 transmissions",
                         "software names / version strings / application names are ASCII",
+                        "histories (one controller, successive machine states): the sver reply -- hence the SCP buffer size "
+                        "the controller has learnt -- the boot chip and the P2P table stay the same across the states",
                         "IOBUF chains are acyclic (the code would loop on a cyclic chain: theorem C14_iobuf_cycle_diverges)",
                         "the P2P dimensions fit their 8-bit fields (width, height <= 255)"]
     chk.regenerate(UNITS)
@@ -835,7 +909,8 @@ def run(chk, args):
             for k in range(0, len(first), per):
                 yield first[k:k + per]
             for k in range(0, n, per):
-                yield [gen_case(chk.rng, i, chk.tier) for i in range(k, min(n, k + per))]
+                yield [gen_history(chk.rng, i, chk.tier) if i % 6 == 3 else gen_case(chk.rng, i, chk.tier)
+                       for i in range(k, min(n, k + per))]
         batches = stream()
     state = dict(seen_keys=set(), nbad=0, ncmp=0, model_error=None, sample=None, base=0)
     for cases in batches:
@@ -854,7 +929,9 @@ def run(chk, args):
                             "0..18 with a common value, core-state patterns fresh / shared-busy / shared+own / random / all busy / "
                             "all idle, link patterns all / periphery / random / none, free-memory figures with a common value and "
                             "32-bit extremes, router blocks 0..2047, both sver encodings, 1-3 probed cores with IOBUF chains of 0-5 "
-                            "blocks; every 8th machine malformed (correspondence only); thorough tier adds exhaustive sweeps (every table height "
+                            "blocks; every 8th machine malformed (correspondence only); every 6th case a history: ONE controller probing 2-3 "
+                            "successive states of the same machine (different vcpu_base, iobuf_size, vcpu blocks, IOBUF chains, core counts, "
+                            "states, links, memory, answering chips), each probe judged against the state current at that call; thorough tier adds exhaustive sweeps (every table height "
                             "1..255, every link mask, every core count 0..31, every AppState in every core position, every router "
-                            "block size); non-trivial = well-formed machine on which "
+                            "block size); non-trivial = well-formed machine (every state of a history) on which "
                             "get_system_info reports >= 2 chips; distinct by hash of the whole machine state")
